@@ -337,7 +337,8 @@ def r_alignment(c):
     m = c.model
     fd = m.func("pytato.array.matmul")
     where = m.loc("pytato.array", fd)
-    pools = find(fd, "$pool = $names[:max($a.ndim - 2, $b.ndim - 2)]")
+    fd = m.expand_locals(fd, only="aliases")     # `n1 = x1.ndim` is x1.ndim
+    pools = find(fd, "$pool = $$names[:max($a.ndim - 2, $b.ndim - 2)]")
     if len(pools) != 1:
         raise AnalysisError("anchor vanished: pool of stacking indices in matmul")
     pool = pools[0]["$pool"]
